@@ -3,6 +3,7 @@
 package vnet
 
 import (
+	"fmt"
 	"net"
 	"time"
 
@@ -131,6 +132,51 @@ func ZZTBFQueued(t *TokenBucketFilter) []string {
 	defer t.queue.mutex.RUnlock()
 	for _, c := range t.queue.chunks {
 		out = append(out, c.DestinationAddr().String())
+	}
+	return out
+}
+
+// ZZRouterAddrs returns the addresses a parent router assigned to this (child) router's eth0.
+func ZZRouterAddrs(r *Router) []string {
+	var out []string
+	for _, ifc := range r.interfaces {
+		if ifc.Name != "eth0" {
+			continue
+		}
+		addrs, _ := ifc.Addrs()
+		for _, a := range addrs {
+			if ipn, ok := a.(*net.IPNet); ok {
+				out = append(out, ipn.IP.String())
+			}
+		}
+	}
+	return out
+}
+
+// ZZNetAddrs returns the eth0 addresses of a Net.
+func ZZNetAddrs(n *Net) []string {
+	var out []string
+	for _, ifc := range n.interfaces {
+		if ifc.Name != "eth0" {
+			continue
+		}
+		addrs, _ := ifc.Addrs()
+		for _, a := range addrs {
+			if ipn, ok := a.(*net.IPNet); ok {
+				out = append(out, ipn.IP.String())
+			}
+		}
+	}
+	return out
+}
+
+// ZZBindTable lists "ip:port" of every socket registered in a Net's bind table.
+func ZZBindTable(n *Net) []string {
+	var out []string
+	for port, conns := range n.udpConns.portMap {
+		for _, c := range conns {
+			out = append(out, fmt.Sprintf("%s:%d", c.locAddr.IP.String(), port))
+		}
 	}
 	return out
 }
